@@ -13,7 +13,7 @@ func init() {
 		Explanation: "Decides four structural conditions of 'ignore rules match git check-ignore', not the classification of every path: " +
 			"(escape-aware-trim) the trailing spaces of a pattern are removed only by a left-to-right scan that skips the byte after every backslash (git's trim_trailing_spaces): no function of the pattern parser trims spaces with " +
 			"strings.TrimRight/TrimSpace/TrimSuffix or decides quoting with a suffix test on a constant containing a backslash — whether a trailing space is quoted depends on the parity of the backslashes before it, which no fixed suffix shows " +
-			"(found and fixed: `a\\  ` lost its quoted space, `a\\\\ ` kept an unquoted one) — and the scanner has a backslash case that advances the index; " +
+			"(found and fixed: `a\\  ` lost its quoted space, `a\\\\ ` kept an unquoted one) — and the scanner has a backslash case that advances the index; (space-run-ended-by-every-other-byte) in the scanner every case other than the unquoted space resets the variable that marks the start of the trailing run on every path before the scan steps on (git resets last_space on a quoted byte as on an ordinary one: `a \\b ` is `a \\b`, not `a`); " +
 			"(parse-order) ParsePattern strips the negation mark before it trims and recognises the directory mark ('/' suffix) after it, so `!dir/  ` is a negated directory pattern; " +
 			"(wildmatch-codes) the matcher's four return codes have wildmatch.h's values and the retry loop of a star never ends in the plain no-match code (shared with C53); " +
 			"(star-branch-consumes-stars-and-slashes-only) in the matcher's '*' case the pattern index steps only over the star, further stars and a boundary slash, so the rest of the pattern handed to the recursive call keeps every escaping backslash; (comment-rule) a line is a comment only if it begins with '#' (no trimming before the test), and blank lines are skipped. Not decided: wildmatch itself, scopes and precedence across files, negation below an excluded directory.",
@@ -84,6 +84,15 @@ func runC49(c *Ctx) {
 	}
 	// the scanner: a function in the closure with a loop over the bytes whose backslash case advances the index
 	scanner := false
+	scanLoops := map[*ast.ForStmt]*FuncInfo{}
+	defer func() {
+		for loop, fi := range scanLoops {
+			checkSpaceRunEnded(c, "space-run-ended-by-every-other-byte", fi, loop)
+		}
+		if len(scanLoops) == 0 {
+			c.Unresolved("space-run-ended-by-every-other-byte", pp.Name()+":scanner", pp.Decl.Pos(), "no scanner loop found")
+		}
+	}()
 	for _, fi := range closure {
 		if fi.Pkg != pk || fi.Decl.Body == nil {
 			continue
@@ -118,6 +127,7 @@ func runC49(c *Ctx) {
 					ast.Inspect(st, func(x ast.Node) bool {
 						if inc, ok := x.(*ast.IncDecStmt); ok && inc.Tok == token.INC && objOf(info, inc.X) == idx {
 							scanner = true
+							scanLoops[loop] = fi
 						}
 						return true
 					})
